@@ -351,6 +351,17 @@ def run_project(spec, rec, dadi):
             good = good and np.array_equal(np.asarray(back, float), x)
         rec.check("project-up-down-inverse", bool(good), site="Inference._project_params_up/_project_params_down",
                   observed={"down": down, "up": up}, expected=exp_up)
+        # whole-number free parameters given as Python ints or an integer array (grid indices, counts): the fixed values put back
+        # among them are what was given, fractions included
+        if fixed is not None and 1 <= nfree:
+            xi = [int(v) for v in rng.integers(-4, 9, size=nfree)]
+            for form in (xi, np.array(xi)):
+                oki, upi = rec.noraise("project-returns", lambda: Inference._project_params_up(form if nfree > 1 else form, fixed), site="Inference._project_params_up")
+                if oki:
+                    it = iter(xi)
+                    want = np.array([float(next(it)) if v is None else float(v) for v in fixed])
+                    rec.check("project-up-down-inverse", bool(np.array_equal(np.asarray(upi, float), want)), site="Inference._project_params_up",
+                              tags={"integer_input": type(form).__name__}, observed=np.asarray(upi, float), expected=want)
 
 
 def run_perturb(spec, rec, dadi):
